@@ -127,6 +127,9 @@ Definition delta (me : N) (r : role) (a : assoc) (nd nd' : node) (a2 : assoc) : 
   cbuf (n_pcd nd') = (if at_pc a r FDo 5 then cbuf (n_pcd nd) ++ [me] else cbuf (n_pcd nd))
   /\ n_map nd' = (if at_pc a r FFirst 1 || at_pc a r FFirst 3 then me :: remove_all me (n_map nd) else n_map nd)
   /\ n_created nd' + (if crt a then 1 else 0) = n_created nd + (if crt a2 then 1 else 0)
+  /\ (crt a = true -> crt a2 = true)
+  /\ (n_busy nd' = true -> n_busy nd = true \/ n_lsock nd = false)
+  /\ (crt a = false -> crt a2 = true -> n_lsock nd = false)
   /\ rep a2 = (rep a || at_pc a r FDo 5)
   /\ (t_st (a_fst a) = TFinished -> t_st (a_fst a2) = TFinished).
 
@@ -213,6 +216,9 @@ Ltac finish_inv :=
         | (rewrite ?orb_false_r, ?orb_true_r; reflexivity)
         | (let He := fresh in intros He; apply early_bg in He; congruence)
         | fnok_leaf
+        | solve [intros; match goal with E : _ || _ = false |- _ => apply orb_false_elim in E; destruct E end;
+                 first [assumption | congruence | (left; assumption) | (right; assumption)]]
+        | solve [intros; first [discriminate | congruence | (left; assumption)]]
         | tmo_leaf
         | solve [intros ? [?|?]; first [discriminate | congruence]]
         | solve [fwd; first [assumption | congruence | auto 3]]
